@@ -993,6 +993,17 @@ namespace sim
     const GridFile g = parse_grid(gf->second, max_resolution);
     if (r.status != 0 || r.rc != 0)
       {
+        // a world file the library itself refuses is not the tool's failure
+        try
+          {
+            simfs::set_faults({});
+            WorldBuilder::World probe(files[0]);
+          }
+        catch (std::exception &)
+          {
+            res.counters["grid_world_unbuildable"]++;
+            return;
+          }
         add(res, P + "/tool-failed", "grid", "gwb-grid failed on a grammatical grid file: " + (r.what.empty() ? r.err.substr(0, 300) : r.what.substr(0, 300)), op_index);
         return;
       }
